@@ -96,6 +96,16 @@ class SymPos(object):
         return '%s(%s)%s' % (self.part, self.path, d)
 
 
+class SymPosMix(object):
+    """A position component computed by comparing/combining the positions of several nodes (max, min)."""
+    def __init__(self, op, parts):
+        self.op = op
+        self.parts = parts
+
+    def __repr__(self):
+        return '%s(%s)' % (self.op, ', '.join(repr(p) for p in self.parts))
+
+
 class LocExpr(object):
     """A location produced by a summarised helper (get_expr_end, find_id_loc,
     get_first_body_node_loc)."""
@@ -248,6 +258,7 @@ class Interp(object):
         self.current_line = None
         self.sys_path = ['<sys.path[0]>']
         self.memoise_cached = False
+        self.nodevisitor_model = False
         self.guarded_getattr = 0
         self.fs = None             # concrete fake file system (set of paths) or None = symbolic
 
@@ -492,6 +503,14 @@ class Interp(object):
                 r = hook(self, v, attr)
                 if r is not NotImplemented:
                     return r
+            if self.nodevisitor_model and any('NodeVisitor' in b for c in v.cls.mro() for b in c.base_names):
+                if attr == 'visit':
+                    return Native('NodeVisitor.visit', lambda it, a, k, o=v: it.nv_visit(o, a[0]))
+                if attr == 'generic_visit':
+                    return Native('NodeVisitor.generic_visit', lambda it, a, k, o=v: it.nv_generic_visit(o, a[0]))
+            ga = v.cls.lookup('__getattr__')
+            if ga is not None and not attr.startswith('__'):
+                return self.call(FuncVal(ga.rel, ga.node, None, v, ga.cls), [attr], {})
             raise InterpRaise('AttributeError', '%s object has no attribute %r' % (v.cls.name, attr), node)
         if isinstance(v, SymNode):
             if attr in v.extra:
@@ -741,6 +760,18 @@ class Interp(object):
         self.effect('import', args[0])
         return Unknown('module')
 
+    def nat_max(self, args, kwargs):
+        vals = list(args[0]) if len(args) == 1 else list(args)
+        if any(isinstance(v, (SymPos, SymPosMix)) for v in vals):
+            return SymPosMix('max', vals)
+        return max(vals)
+
+    def nat_min(self, args, kwargs):
+        vals = list(args[0]) if len(args) == 1 else list(args)
+        if any(isinstance(v, (SymPos, SymPosMix)) for v in vals):
+            return SymPosMix('min', vals)
+        return min(vals)
+
     def _lt(self, a, b):
         return self.compare(ast.Lt(), a, b, None)
 
@@ -791,6 +822,31 @@ class Interp(object):
             if m is not None:
                 return self.iterate(self.call(FuncVal(m.rel, m.node, None, v, m.cls), [], {}))
         raise Uninterpretable('iteration over %r' % (v,))
+
+    # ---- ast.NodeVisitor semantics (for visitors other than the extractor, which has its own sink model) ----
+    def nv_visit(self, vis, node):
+        if not isinstance(node, SymNode):
+            raise InterpRaise('AttributeError', 'NodeVisitor.visit(%r)' % (node,))
+        name = 'visit_' + (node.cls or 'Opaque' + node.sort.capitalize())
+        try:
+            m = self.getattr(vis, name)
+        except InterpRaise:
+            return self.nv_generic_visit(vis, node)
+        return self.call(m, [node], {})
+
+    def nv_generic_visit(self, vis, node):
+        from . import grammar as G
+        if not isinstance(node, SymNode) or node.cls is None:
+            return None
+        for fld in G.NODE_FIELDS.get(node.cls, []):
+            v = node.fields.get(fld.name)
+            if isinstance(v, list):
+                for x in v:
+                    if isinstance(x, SymNode):
+                        self.nv_visit(vis, x)
+            elif isinstance(v, SymNode):
+                self.nv_visit(vis, v)
+        return None
 
     # ---- truthiness / comparison ------------------------------------------------
     def truth(self, v, node):
@@ -855,6 +911,10 @@ class Interp(object):
         if isinstance(a, (int, str, tuple, float)) and isinstance(b, (int, str, tuple, float)) \
                 and not _has_sym(a) and not _has_sym(b):
             return {ast.Lt: a < b, ast.LtE: a <= b, ast.Gt: a > b, ast.GtE: a >= b}[type(op)]
+        if _has_sym(a) or _has_sym(b):
+            if isinstance(a, (SymPos, SymPosMix, tuple, int)) and isinstance(b, (SymPos, SymPosMix, tuple, int)):
+                self.effect('position-compare', repr(a), repr(b))
+                return self.decide(('pos-cmp', repr(a), repr(b)))
         if isinstance(a, Obj) and isinstance(op, ast.Lt) and a.cls.lookup('__lt__') is not None:
             m = a.cls.lookup('__lt__')
             return self.truth(self.call(FuncVal(m.rel, m.node, None, a, m.cls), [b], {}), None)
@@ -1234,7 +1294,7 @@ def _load(t):
 def _has_sym(v):
     if isinstance(v, tuple):
         return any(_has_sym(x) for x in v)
-    return isinstance(v, (SymPos, LocExpr, Unknown))
+    return isinstance(v, (SymPos, LocExpr, Unknown, SymPosMix))
 
 
 class Frame(object):
